@@ -601,8 +601,18 @@ pub fn subset(n: usize, k: std::ops::RangeInclusive<usize>) -> impl Strategy<Val
     proptest::sample::subsequence((0..n).collect::<Vec<_>>(), lo..=hi)
 }
 
+/// the same matrix with its ones inserted in a random order (the internal entry order of a
+/// SparseMatrix follows insertion and is visible to order-sensitive code)
+pub fn shuffled(m: impl Strategy<Value = Mat>) -> impl Strategy<Value = Mat> {
+    m.prop_flat_map(|m| (Just(m.rows), Just(m.cols), Just(m.ones).prop_shuffle())).prop_map(|(rows, cols, ones)| Mat { rows, cols, ones })
+}
+
 /// r x n matrix with every row weight >= 2 (decoder-compatible), with classes
 pub fn decoder_matrix(max_r: usize, max_n: usize) -> impl Strategy<Value = Mat> {
+    shuffled(decoder_matrix_sorted(max_r, max_n))
+}
+
+fn decoder_matrix_sorted(max_r: usize, max_n: usize) -> impl Strategy<Value = Mat> {
     (1..=max_r, 2..=max_n, 0..6u8).prop_flat_map(|(r, n, class)| {
         let row = move |lo: usize, hi: usize| subset(n, lo.max(2)..=hi.max(2).min(n));
         let rows: BoxedStrategy<Vec<Vec<usize>>> = match class {
